@@ -40,6 +40,7 @@ type SysOpts struct {
 	IdleBulk     time.Duration
 	UIDValidity  imap.UIDValidityGenerator
 	Users        []string
+	Extra        []gluon.Option // further server options (e.g. gluon.WithDisableParallelism())
 }
 
 // panicRecorder is installed as gluon's panic handler: with it async.HandlePanic recovers, so a
@@ -121,6 +122,7 @@ func NewSys(o SysOpts) (*Sys, error) {
 	if o.UIDValidity != nil {
 		opts = append(opts, gluon.WithUIDValidityGenerator(o.UIDValidity))
 	}
+	opts = append(opts, o.Extra...)
 	srv, err := gluon.New(opts...)
 	if err != nil {
 		return nil, err
